@@ -51,7 +51,8 @@ pub const INT_POOL: &[i128] = &[
     9223372036854775806, 9223372036854775807, 9223372036854775808, 9223372036854775809, 18446744073709551614,
     18446744073709551615, -1, -2, -77, -100, -101, -127, -128, -129, -130, -32767, -32768, -32769, -65536,
     -2147483647, -2147483648, -2147483649, -4294967296, -9007199254740993, -9223372036854775807,
-    -9223372036854775808, 16777217, 16777219, -16777217, 1152921573326323713, 1152921573326323712, 1152921573326323711,
+    -9223372036854775808, 1000, 10000, 100000, 1000000, 10000000, 100000000, 1000000000, 10000000000, 1000000000000,
+    1000000000000000, 1000000000000000000, 10000000000000000000, -1000, -1000000, -1000000000000, 999, 9999, 99999, 16777217, 16777219, -16777217, 1152921573326323713, 1152921573326323712, 1152921573326323711,
     -1152921573326323713, 9007199254740995, 18014398509481985, 36028797018963969, 9223372649179195393,
 ];
 
@@ -131,6 +132,9 @@ impl<'a, R: Rng> Gen<'a, R> {
                 let n = 1 + self.below(8);
                 (0..n).map(|_| *self.pick(&['a', 'b', 'c', 'X', 'Y', '0', '9', '_']) ).collect()
             }
+        } else if self.chance(0.03) {
+            let n = 20 + self.below(40);
+            (0..n).map(|_| *self.pick(&['a', 'b', 'Z', '0', '_', ' ', 'é', '日'])).collect()
         } else if self.chance(0.75) {
             self.pick(STR_POOL).to_string()
         } else {
@@ -359,6 +363,11 @@ impl<'a, R: Rng> Gen<'a, R> {
     }
 
     pub fn len(&mut self) -> usize {
+        // now and then a long container: anything that depends on a size threshold (inline buffers,
+        // fast paths, unstable sorts) needs more than a handful of elements
+        if self.below(40) == 0 {
+            return 8 + self.below(26);
+        }
         match self.below(10) {
             0 | 1 => 0,
             2 | 3 => 1,
@@ -519,7 +528,7 @@ impl<'a, R: Rng> Gen<'a, R> {
                 if self.fault_here() {
                     return self.other_kind(&[crate::pv::Kind::Map]);
                 }
-                let n = if depth >= self.cfg.max_depth { 0 } else { self.len().min(4) };
+                let n = if depth >= self.cfg.max_depth { 0 } else { let l = self.len(); if l > 6 { l.min(20) } else { l.min(4) } };
                 let mut m: Vec<(String, PV)> = vec![];
                 for _ in 0..n {
                     let k = if self.fault_here() {
